@@ -56,6 +56,10 @@ def posMsgs (tok : String) : List Msg :=
 
 def step (σ : St) (op obs : List String) : St × List Msg :=
   match op, obs with
+  -- fewer than all nodes hold the update while some live node does not see every live node as a member: the instances are
+  -- not (all) connected at that moment, the statements about connected instances say nothing
+  | ["prejoin"], [_, "split"] => (σ, [.tag "mesh:membership-incomplete"])
+  | [_, _, _], [_, "split"] => (σ, [.tag "mesh:membership-incomplete"])
   | ["burst", _node, k], [seen] =>
     let (c, n) := frac ((kv [seen] "seen").getD "0/1")
     let pf := if c ≠ n then
